@@ -393,6 +393,59 @@ class NsAttrParent:
     kids: List[NsAttr] = field(default_factory=list, metadata={"type": "Element", "name": "k"})
 
 
+@dataclass
+class ShapeBase:
+    class Meta:
+        name = "shape"
+        namespace = NS_A
+
+    r: int = field(default=0, metadata={"type": "Attribute"})
+
+
+@dataclass
+class CircleV1(ShapeBase):
+    """Two model classes that share one xsi:type qualified name (an old and a new version of a binding)."""
+
+    class Meta:
+        name = "circle"
+        namespace = NS_A
+
+    v1: Optional[int] = field(default=None, metadata={"type": "Element"})
+
+
+@dataclass
+class CircleV2(ShapeBase):
+    class Meta:
+        name = "circle"
+        namespace = NS_A
+
+    v1: Optional[int] = field(default=None, metadata={"type": "Element"})
+    v2: Optional[str] = field(default=None, metadata={"type": "Element"})
+
+
+@dataclass
+class ShapeHolder:
+    class Meta:
+        name = "sh"
+        namespace = NS_A
+
+    s: Optional[ShapeBase] = field(default=None, metadata={"type": "Element"})
+
+
+@dataclass
+class Family:
+    """Compound field whose choices are related by inheritance, base listed first."""
+
+    class Meta:
+        name = "fam"
+        namespace = NS_A
+
+    members: List[Base] = field(
+        default_factory=list,
+        metadata={"type": "Elements", "choices": ({"name": "base", "type": Base}, {"name": "derived", "type": Derived}, {"name": "sibling", "type": Sibling})},
+    )
+
+
 # --------------------------------------------------------------------------- wildcards and attributes
 @dataclass
 class Wild:
@@ -459,7 +512,7 @@ class Temporal:
 
 
 ALL_MODELS = [Basic, TextAttr, TextStr, ReqText, Lists, TokenLists, Frozen, Nillable, NilChild, NilParent, Child, ParentA, ParentB, NsAttr, Unqualified,
-              Sequential, Wrapped, Formats, Unions, Enums, QNames, Alpha, Compound, CompoundSingle, Base, Derived, Sibling, DerivedB, Dup, Numeric, Textual, UnionModels, NsAttrParent, Holder,
+              Sequential, Wrapped, Formats, Unions, Enums, QNames, Alpha, Compound, CompoundSingle, Base, Derived, Sibling, DerivedB, Dup, Numeric, Textual, UnionModels, NsAttrParent, ShapeBase, CircleV1, CircleV2, ShapeHolder, Family, Holder,
               Wild, WildList, Mixed, AnyTyped, Defaults, Temporal]
 
 
